@@ -731,9 +731,11 @@ func (s *ShapeIndex) Shape(id int32) Shape { return s.shapes[id] }
 // By having each type extend S2Shape which has an id element, they all inherit their
 // own id field rather than having to track it themselves.
 func (s *ShapeIndex) idForShape(shape Shape) int32 {
-	for k, v := range s.shapes {
-		if v == shape {
-			return k
+	// Scan the ids in increasing order (not in map order), so that the answer
+	// is the same on every call when a shape has been added more than once.
+	for id := int32(0); id < s.nextID; id++ {
+		if v, ok := s.shapes[id]; ok && v == shape {
+			return id
 		}
 	}
 	return -1
